@@ -1,3 +1,5 @@
+// NOTE (session 4): NO LONGER INCLUDED by any unit. The assumed `arcs()` contract below was replaced in every unit by
+// `//@import units/inc/map_arcs.inc.rs`, where the same clauses are PROVED for the real body (rule E14d). Kept for reference only.
 // ---- prelude (unit map_ctor only): assumed contracts ----
 
 /// strict lexicographic order on arcs (tail first, then head)
